@@ -5,6 +5,11 @@
   * that the other mirrored functions (`list_entrypoints`, `from_parameters`, `OrType.iter_type_args`,
     `OrType.iter_values`, `OrType.from_micheline_value`, `wrap_parameters`, the `entrypoints=True` path of
     `get_type_layout`) still have the statement-for-statement shape the hand-written mirror was made from.
+  * (extension) the same for what `lean/PytezosModel/Michelson/EntrypointsPy.lean` mirrors: `parse_name`,
+    `MichelsonType.create_type`, `Micheline.match`, `parse_micheline_prim` (which annotation names a node, what is refused),
+    `ParameterSection.from_python_object / to_python_object`, `OrType.from_python_object / to_python_object / create_type`
+    (`is_enum`), `wrap_or`, `ADTMixin.get_flat_values / get_type_layout`, the whole of `get_type_layout` (display names),
+    `UnitType.from_python_object / to_python_object`.
 Anything else => `none` (the model refuses to run and the theorems' side condition fails to close)."""
 import ast
 
@@ -133,6 +138,105 @@ def layout_entrypoints_path(fn):
     return src[5] == 'return (path_to_key, key_to_path, idx_to_path)'
 
 
+# ---- extension: bodies mirrored by Michelson/EntrypointsPy.lean (ast.unparse of every statement, docstrings stripped)
+PARSE_NAME = [
+    'if not annots:\n    return None',
+    'sub_annots = [x[1:] for x in annots if x.startswith(prefix)]',
+    'assert len(sub_annots) <= 1, f\'multiple "{prefix}" annotations are not allowed: {sub_annots}\'',
+    'return sub_annots[0] if sub_annots else None',
+]
+
+MT_CREATE_TYPE = [
+    'type_args = [arg for arg in args if issubclass(arg, MichelsonType)]',
+    "if cls.prim in ['list', 'set', 'map', 'big_map', 'option', 'contract', 'lambda']:\n    for arg in type_args:\n        assert arg.field_name is None, f'{cls.prim} argument type cannot be annotated: %{arg.field_name}'",
+    "if cls.prim in ['set', 'map', 'big_map', 'ticket']:\n    assert type_args[0].is_comparable(), f'{cls.prim} key type has to be comparable (not {type_args[0].prim})'",
+    "if cls.prim == 'big_map':\n    assert type_args[0].is_big_map_friendly(), f'impossible big_map value type'",
+    "res = type(cls.__name__, (cls,), dict(field_name=parse_name(annots, '%'), type_name=parse_name(annots, ':'), args=args, **kwargs))",
+    "return cast(Type['MichelsonType'], res)",
+]
+
+PS_FROM_PY = [
+    "if isinstance(py_obj, str):\n    entrypoint = py_obj\n    py_obj = {entrypoint: Unit}\nelse:\n    if not isinstance(py_obj, dict) or len(py_obj) != 1:\n        raise TypeError(f'expected dict with a single key, got {type(py_obj).__name__} `{py_obj}`')\n    entrypoint = next(iter(py_obj))",
+    "if entrypoint == cls.root_name:\n    item = cls.args[0].from_python_object(py_obj[entrypoint])\nelse:\n    if not issubclass(cls.args[0], OrType):\n        raise TypeError(f'Unexpected entrypoint `{entrypoint}`: parameter is not of sum type')\n    _, key_to_path, _ = cls.args[0].get_type_layout(infer_names=True, entrypoints=True)\n    if not key_to_path:\n        raise TypeError('sum type has to be named (in the scope of PyTezos)')\n    item = cls.args[0].from_python_object(wrap_or(py_obj[entrypoint], key_to_path[entrypoint]))",
+    'return cls(item)',
+]
+
+PS_TO_PY = [
+    'py_obj = self.item.to_python_object(try_unpack=try_unpack, lazy_diff=None)',
+    'if issubclass(self.args[0], OrType):\n    return py_obj\nelse:\n    return {self.root_name: py_obj}',
+]
+
+OR_FROM_PY = [
+    "if isinstance(py_obj, list):\n    py_obj = tuple(py_obj)\nelif isinstance(py_obj, str):\n    assert cls.is_enum, 'string values allowed for enums only'\n    py_obj = {py_obj: Unit}\nelif isinstance(py_obj, tuple):\n    assert len(py_obj) == 2, f'expected `(entrypoint, value)`, got {py_obj}'\n    py_obj = {py_obj[0]: py_obj[1]}",
+    "if isinstance(py_obj, dict):\n    assert len(py_obj) == 1, f'single key expected, got {len(py_obj)}'\n    entrypoint = next(iter(py_obj))\n    _, key_to_path, _ = cls.get_type_layout(infer_names=True)\n    assert key_to_path, f'sum type has to be named (in the scope of PyTezos)'\n    return cls.from_python_object(wrap_or(py_obj[entrypoint], key_to_path[entrypoint]))\nelif isinstance(py_obj, Nested):\n    value = tuple((Undefined if py_obj[i] is Undefined else cls.args[i].from_python_object(py_obj[i]) for i in [0, 1]))\n    return cls(value)\nelse:\n    raise AssertionError(f'expected list, tuple, or dict, got `{py_obj}`')",
+]
+
+OR_TO_PY = [
+    'flat_values = self.get_flat_values(infer_names=True)',
+    "assert isinstance(flat_values, dict) and len(flat_values) == 1, f'sum type has to be named (in the scope of PyTezos)'",
+    'entrypoint = next(iter(flat_values))',
+    'if self.is_enum:\n    return entrypoint\nelse:\n    py_obj = flat_values[entrypoint].to_python_object(try_unpack=try_unpack, lazy_diff=lazy_diff, comparable=comparable)\n    return (entrypoint, py_obj) if comparable else {entrypoint: py_obj}',
+]
+
+OR_CREATE_TYPE = [
+    "def all_units(arguments: List[Type['Micheline']]):\n    for arg in arguments:\n        if issubclass(arg, OrType):\n            if not all_units(arg.args):\n                return False\n        elif not issubclass(arg, UnitType):\n            return False\n    return True",
+    'is_enum = all_units(args)',
+    'res = super(OrType, cls).create_type(args=args, annots=annots, is_enum=is_enum, **kwargs)',
+    "return cast(Type['OrType'], res)",
+]
+
+WRAP_OR = [
+    "if len(path) == 0:\n    return obj\nelif path[0] == '0':\n    return Nested(wrap_or(obj, path[1:]), Undefined)\nelif path[0] == '1':\n    return Nested(Undefined, wrap_or(obj, path[1:]))\nelse:\n    raise AssertionError(path)",
+]
+
+GET_FLAT_VALUES = [
+    'path_to_key, _, _ = self.get_type_layout(infer_names=infer_names, entrypoints=entrypoints)',
+    'flat_values = list(self.iter_values())',
+    'if force_tuple is False and isinstance(path_to_key, dict):\n    return {path_to_key[path]: arg for path, arg in flat_values}\nelse:\n    return [arg for _, arg in flat_values]',
+]
+
+GET_TYPE_LAYOUT = [
+    'reserved = set()',
+    'path_to_key = {}',
+    'generated = []',
+    "for i, (bin_path, arg) in enumerate(flat_args):\n    key = arg.field_name\n    if key is None and (not entrypoints):\n        key = arg.type_name\n    if key is not None and key not in reserved:\n        reserved.add(key)\n        path_to_key[bin_path] = key\n    else:\n        assert entrypoints is False, f'duplicate key {key}'\n        path_to_key[bin_path] = f'{arg.prim}_{i}'\n        generated.append(bin_path)",
+    'taken = set(reserved)',
+    "for bin_path in generated:\n    name = path_to_key[bin_path]\n    while name in taken:\n        name += '_'\n    taken.add(name)\n    path_to_key[bin_path] = name",
+    'idx_to_path = dict(enumerate(path_to_key))',
+    'if len(reserved) == 0 and infer_names is False and (entrypoints is False):\n    path_to_key = None\n    key_to_path = None\nelse:\n    key_to_path = {name: path for path, name in path_to_key.items()}',
+    'return (path_to_key, key_to_path, idx_to_path)',
+]
+
+MIXIN_LAYOUT = [
+    'flat_args = list(cls.iter_type_args(entrypoints=entrypoints))',
+    'return get_type_layout(flat_args, infer_names=infer_names, entrypoints=entrypoints)',
+]
+
+MATCH = [
+    "if isinstance(expr, list):\n    args = [Micheline.match(arg) for arg in expr]\n    return MichelineSequence.create_type(args=args)\nelif isinstance(expr, dict):\n    if expr.get('prim'):\n        prim, args, annots = parse_micheline_prim(expr)\n        if prim == 'RUN':\n            if annots:\n                args = [{'string': annots[0][1:]}] + args\n                annots = []\n            else:\n                args = [{'string': 'default'}] + args\n        args_len = len(args)\n        if (prim, args_len) not in Micheline.classes:\n            args_len = None\n        assert (prim, args_len) in Micheline.classes, f'unregistered primitive {prim} ({args_len} args)'\n        cls = Micheline.classes[prim, args_len]\n        try:\n            return cls.create_type(args=list(map(Micheline.match, args)), annots=annots)\n        except Exception as e:\n            raise MichelsonRuntimeError(cls.prim, *e.args) from e\n    else:\n        literal = parse_micheline_literal(expr, {'int': int, 'string': str, 'bytes': bytes.fromhex})\n        return MichelineLiteral.create(literal=literal)\nelse:\n    raise MichelsonRuntimeError(f'malformed expression `{expr}`')",
+]
+
+PARSE_PRIM = [
+    "assert isinstance(prim_expr, dict), f'expected dict, got {pformat(prim_expr)} (instr_expr)'",
+    "prim = prim_expr.get('prim')",
+    "assert prim is not None, f'prim field is absent'",
+    "args = prim_expr.get('args', [])",
+    "assert isinstance(args, list), f'{prim}: expected list of args, got {pformat(args)} (args)'",
+    "annots = prim_expr.get('annots', [])",
+    "assert isinstance(annots, list), f'{prim}: expected list of annots, got {pformat(annots)} (annots)'",
+    'return (prim, args, annots)',
+]
+
+UNIT_FROM_PY = [
+    "assert py_obj is None or isinstance(py_obj, unit), f'expected None or Unit, got {type(py_obj).__name__}'",
+    'return cls()',
+]
+
+UNIT_TO_PY = [
+    'return unit()',
+]
+
+
 @generator('C13')
 def gen(status):
     out = []
@@ -202,6 +306,27 @@ def gen(status):
         'wrap_parameters': body_src(find_func(adt, 'wrap_parameters')) == WRAP_PARAMETERS,
         'get_type_layout (entrypoints path)': layout_entrypoints_path(find_func(adt, 'get_type_layout')),
     }
+    base = parse('michelson/types/base.py')
+    mic = parse('michelson/micheline.py')
+    unit = find_class(parse('michelson/types/core.py'), 'UnitType')
+    mixin = find_class(adt, 'ADTMixin')
+    checks.update({
+        'parse_name': body_src(find_func(base, 'parse_name')) == PARSE_NAME,
+        'MichelsonType.create_type': body_src(find_func(find_class(base, 'MichelsonType'), 'create_type')) == MT_CREATE_TYPE,
+        'Micheline.match': body_src(find_func(find_class(mic, 'Micheline'), 'match')) == MATCH,
+        'parse_micheline_prim': body_src(find_func(mic, 'parse_micheline_prim')) == PARSE_PRIM,
+        'ParameterSection.from_python_object': body_src(find_func(par, 'from_python_object')) == PS_FROM_PY,
+        'ParameterSection.to_python_object': body_src(find_func(par, 'to_python_object')) == PS_TO_PY,
+        'OrType.from_python_object': body_src(find_func(orty, 'from_python_object')) == OR_FROM_PY,
+        'OrType.to_python_object': body_src(find_func(orty, 'to_python_object')) == OR_TO_PY,
+        'OrType.create_type (is_enum)': body_src(find_func(orty, 'create_type')) == OR_CREATE_TYPE,
+        'wrap_or': body_src(find_func(adt, 'wrap_or')) == WRAP_OR,
+        'ADTMixin.get_flat_values': body_src(find_func(mixin, 'get_flat_values')) == GET_FLAT_VALUES,
+        'ADTMixin.get_type_layout': body_src(find_func(mixin, 'get_type_layout')) == MIXIN_LAYOUT,
+        'get_type_layout (display names)': body_src(find_func(adt, 'get_type_layout')) == GET_TYPE_LAYOUT,
+        'UnitType.from_python_object': body_src(find_func(unit, 'from_python_object')) == UNIT_FROM_PY,
+        'UnitType.to_python_object': body_src(find_func(unit, 'to_python_object')) == UNIT_TO_PY,
+    })
     for k, ok in checks.items():
         status[f'mirror source: {k}'] = (ok, 'statement-for-statement as mirrored' if ok else 'body differs from the mirrored text')
     out.append('/-- the other mirrored functions have the shape the hand-written mirror was made from -/')
